@@ -71,7 +71,9 @@ func c16codec(which int) Codec {
 // is where the operating system would let another thread in). Claim: the bytes on the wire are
 // two whole frames — the receiver's codec reads back exactly the two payloads, each once.
 func VerifC16_concurrent_send() {
-	verifrt.Bubble(func() {
+	// no synctest bubble here: the second goroutine blocks on a sync.Mutex, which a bubble does not
+	// regard as durably blocked; Settle falls back to yielding natively
+	func() {
 		which := []int{0, 1, 3}[verifrt.Fork("codec", 3)] // padded intermediate draws from crypto/rand: same framing code as intermediate
 		at := 1 + verifrt.Fork("at", 3)
 		fa := verifrt.NondetBytes("a", 8)
@@ -114,13 +116,15 @@ func VerifC16_concurrent_send() {
 		verifrt.Assert((g0 == string(fa) && g1 == string(fb)) || (g0 == string(fb) && g1 == string(fa)), "C16.csend.wholeframes")
 		verifrt.Assert(rd.pos == len(rd.in), "C16.csend.leftover")
 		verifrt.Reach("C16.csend.end")
-	})
+	}()
 }
 
 // VerifC16_concurrent_recv: two goroutines receive on the same connection; the second arrives
 // while the first is inside its k-th read. Claim: each receives one whole frame of the two sent.
 func VerifC16_concurrent_recv() {
-	verifrt.Bubble(func() {
+	// no synctest bubble here: the second goroutine blocks on a sync.Mutex, which a bubble does not
+	// regard as durably blocked; Settle falls back to yielding natively
+	func() {
 		which := []int{0, 1, 3}[verifrt.Fork("codec", 3)] // padded intermediate draws from crypto/rand: same framing code as intermediate
 		at := 1 + verifrt.Fork("at", 3)
 		fa := verifrt.NondetBytes("a", 8)
@@ -156,5 +160,5 @@ func VerifC16_concurrent_recv() {
 		g0, g1 := string(first.Buf), string(second.Buf)
 		verifrt.Assert((g0 == string(fa) && g1 == string(fb)) || (g0 == string(fb) && g1 == string(fa)), "C16.crecv.wholeframes")
 		verifrt.Reach("C16.crecv.end")
-	})
+	}()
 }
